@@ -63,6 +63,10 @@ def build_cases(ctx, tags, subs):
     subnames = [n for _, n in subs] + ["foo", "Player", "PLAYER", "stored_playlis", "x-y", "ß", "playlist2", "queue", "Queue"]
     for n in subnames:
         cases.append("sub " + hexs(n))
+    # pairs: every value against every other (named vs named, named vs catch-all, catch-all vs catch-all)
+    for a in subnames:
+        for b_ in subnames:
+            cases.append("sub_cmp " + hexs(a) + " " + hexs(b_))
     return cases
 
 
@@ -117,6 +121,11 @@ def oracle(ctx, cases, impl, tags, subs, spec_tags, spec_subs):
                     if ids and name_of[ids[0]] != s:
                         klass = "noncanonical_known"
                 fails.append(Failure(c, f"parsing the tag's own protocol name gave [{out}]", klass))
+        elif t[0] == "sub_cmp":
+            kv = dict(x.split("=", 1) for x in out.split(" ")) if "=" in out else {}
+            same = "1" if t[1] == t[2] else "0"
+            if kv.get("eq") != same or kv.get("hset") != same or kv.get("hashcoh") != "1" or kv.get("names") != f"{t[1]},{t[2]}":
+                fails.append(Failure(c, f"subsystems for names {unhexs(t[1])!r} and {unhexs(t[2])!r}: [{out}]; comparing and hashing by protocol name requires eq={same} hset={same} hashcoh=1"))
         elif t[0] == "sub":
             kv = dict(x.split("=", 1) for x in out.split(" ")) if "=" in out else {}
             if kv.get("name") != t[1] or kv.get("eq_other") != "1" or kv.get("hashcoh") != "1":
